@@ -381,13 +381,13 @@ func (s *S) check(reads []ReadSpec, when string, strict bool) {
 		first := d
 		t0 := time.Now()
 		if strict {
-			s.fail("%s: read %q differs from the model with the drops applied: %s", when, r.SQL(n), first)
+			s.fail("%s: read %q differs from the model with the drops applied: %s%s", when, r.SQL(n), first, s.agreement(reads, i))
 		}
 		for d != "" {
 			if time.Since(t0) > 30*time.Second {
 				o, u, lv := s.h.Layout()
-				s.fail("%s: read %q differs from the model with the drops applied (still after 30 s): %s [shape %s; files ordered=%d unordered=%d maxlevel=%d; restarts=%d kills=%d drops=%d]",
-					when, r.SQL(n), d, r.Shape(), o, u, lv, s.restarts, s.kills, s.drops)
+				s.fail("%s: read %q differs from the model with the drops applied (still after 30 s): %s [shape %s; files ordered=%d unordered=%d maxlevel=%d; restarts=%d kills=%d drops=%d]%s",
+					when, r.SQL(n), d, r.Shape(), o, u, lv, s.restarts, s.kills, s.drops, s.agreement(reads, i))
 			}
 			time.Sleep(250 * time.Millisecond)
 			d = s.runRead(r)
@@ -398,6 +398,26 @@ func (s *S) check(reads []ReadSpec, when string, strict bool) {
 		s.c.Class(class + ":" + r.Shape())
 		noteLate(class, time.Since(t0).Milliseconds(), fmt.Sprintf("%s: %q was wrong for %d ms: %s", when, r.SQL(n), time.Since(t0).Milliseconds(), first))
 	}
+}
+
+// agreement runs the other reads of a check once and says which shapes agree with the model and which do not
+// (the read shapes must agree with each other).
+func (s *S) agreement(reads []ReadSpec, failing int) string {
+	right, wrong := map[string]bool{}, map[string]bool{}
+	for j := range reads {
+		if j == failing || s.w.ns[reads[j].NS] == nil || !s.h.Srv.Alive() {
+			continue
+		}
+		if reads[j].NS != reads[failing].NS || reads[j].Mst != reads[failing].Mst {
+			continue
+		}
+		if s.runRead(&reads[j]) == "" {
+			right[reads[j].Shape()] = true
+		} else {
+			wrong[reads[j].Shape()] = true
+		}
+	}
+	return fmt.Sprintf(" | other reads of the same measurement in this check: wrong %s, right %s", setStr(wrong), setStr(right))
 }
 
 // batteryFor: every read shape over one measurement (deterministic).
